@@ -299,7 +299,7 @@ static bool quiet()
   dzn::pump* p = the_pump();
   return s.clients_active - s.shell_waiting - s.parked <= 0 && !(p && p->running());
 }
-static bool wait_quiet(int ms = 4000)
+static bool wait_quiet(int ms = 20000)       // generous: the verdict "not quiescent" must not depend on machine load
 {
   verif::state& s = verif::S();
   auto deadline = std::chrono::steady_clock::now() + std::chrono::milliseconds(ms);
@@ -490,14 +490,14 @@ int main(int argc, char** argv)
     else if (cmd == "try") { std::string who; int ms; in >> who >> ms; bool had;
           { verif::state& s = verif::S(); std::unique_lock<std::mutex> lock(s.m); had = s.at.count(who) > 0; if (had) s.go.insert(who); s.cv.notify_all();
             // the thread must have left its yield point before quiescence is judged (it still counts as parked until then)
-            if (had) s.cv.wait_for(lock, std::chrono::milliseconds(5000), [&] { return s.go.count(who) == 0; }); }
+            if (had) s.cv.wait_for(lock, std::chrono::milliseconds(20000), [&] { return s.go.count(who) == 0; }); }
           bool q = had && wait_quiet(ms);
           res = std::string("{\"ok\":") + (had ? "true" : "false") + ",\"progressed\":" + (q ? "true" : "false") + "}";
           std::cout << "{\"cmd\":" << verif::json_str(line) << ",\"res\":" << res << ",\"nowait\":true}" << std::endl; continue; }
     else if (cmd == "go") { std::string who; in >> who; { verif::state& s = verif::S(); std::unique_lock<std::mutex> lock(s.m);
           if (s.at.count(who)) { s.go.insert(who); res = "{\"ok\":true}"; } else res = "{\"ok\":false}"; s.cv.notify_all(); }
           if (res == "{\"ok\":true}") { verif::state& s = verif::S(); std::unique_lock<std::mutex> lock(s.m);
-            s.cv.wait_for(lock, std::chrono::milliseconds(5000), [&] { return s.go.count(who) == 0; }); } }
+            s.cv.wait_for(lock, std::chrono::milliseconds(20000), [&] { return s.go.count(who) == 0; }); } }
     else if (cmd == "pump") { dzn::pump* p = the_pump(); bool ok = p && (verif::S().yielding ? p->grant() : p->step());
                               res = ok ? "{\"ok\":true}" : "{\"ok\":false}"; }
     else if (cmd == "state") { res = "{\"ok\":true}"; }
